@@ -30,6 +30,12 @@ def gdFrom (misfit : V → α) (grad : V → V) (pre : V → V) (bad : α → Bo
 def gradientDescent (misfit : V → α) (grad : V → V) (pre : V → V) (bad : α → Bool) (strict : Bool) (eps : α)
     (m0 : V) (iterations : Nat) : GDResult V α :=
   gdFrom misfit grad pre bad strict eps (m0, misfit m0) iterations
+
+/-- Ctrl-C while the target is evaluated in iteration `completed` (0-based): the step in progress is
+    abandoned and what was completed is returned — the run is the run of `completed` iterations. -/
+def gradientDescentInterrupted (misfit : V → α) (grad : V → V) (pre : V → V) (bad : α → Bool) (strict : Bool) (eps : α)
+    (m0 : V) (iterations completed : Nat) : GDResult V α :=
+  gradientDescent misfit grad pre bad strict eps m0 (min completed iterations)
 end
 
 /-- one coordinate of the preconditioned gradient: `(1 / (g² + reg)) * g` -/
